@@ -1,6 +1,6 @@
 (* Properties/C07.v -- Module placement conforms to ISO/IEC 16022 Annex F and ISO 21471. *)
 From Coq Require Import ZArith NArith List Bool.
-From DM Require Import Generated.Symbols Spec.AnnexF Model.Outcome Model.Placement Proofs.PlacementProofs.
+From DM Require Import Generated.Symbols Spec.GF256 Spec.AnnexF Model.Outcome Model.Placement Proofs.PlacementProofs Proofs.PlacementValues.
 Import ListNotations.
 Local Open Scope Z_scope.
 
@@ -29,6 +29,21 @@ Theorem C07_bijection : forall s, exists visits, run (zh s) (zw s) = Ok visits /
      else []).
 Proof. exact placement_bijection. Qed.
 Print Assumptions C07_bijection.
+
+(* Reading the codewords back from the matrix inverts writing them, for every size and EVERY codeword vector of the
+   symbol's length; the left-over corner modules of 12x12, 16x16, 20x20, 24x24 carry the fixed pattern
+   (dark, light / light, dark) whatever the codewords are. *)
+Theorem C07_values : forall s cws, length cws = N.to_nat (ntotal s) -> Forall byte cws ->
+  exists e, copy_from_codewords (zh s) (zw s) (has_padding_modules s) cws = Ok e /\
+    length e = Z.to_nat (zh s * zw s) /\
+    codewords (zh s) (zw s) e = Ok cws /\
+    (has_padding_modules s = true ->
+       nth (Z.to_nat ((zh s - 2) * zw s + (zw s - 2))) e false = true /\
+       nth (Z.to_nat ((zh s - 2) * zw s + (zw s - 1))) e false = false /\
+       nth (Z.to_nat ((zh s - 1) * zw s + (zw s - 2))) e false = false /\
+       nth (Z.to_nat ((zh s - 1) * zw s + (zw s - 1))) e false = true).
+Proof. exact placement_roundtrip. Qed.
+Print Assumptions C07_values.
 
 (* non-vacuity / worked example: Figure F.1 of the standard is what the model computes *)
 Example C07_example_10x10 :
